@@ -58,3 +58,16 @@ Definition msg_evolve (slow : bool) (S S' : schema) (limit : nat) (bs : list byt
   end.
 
 Definition msg_is_unknown_for (md : mdesc) (num typ : N) : bool := msg_rejects md true num typ.
+
+(* the populated fields of the top-level message that are KEPT ([kp num = true]) have a scalar kind
+   (scalars of all 16 kinds, lists of scalars, maps with scalar values); the deleted ones are
+   arbitrary: the class of messages for which schema evolution is proved
+   (C09_schema_evolution_partial) *)
+Definition msg_scalar_kind (fd : fdesc) : bool := match f_kind fd with KS _ => true | _ => false end.
+Definition msg_kept_scalar (kp : N -> bool) (md : mdesc) (fs : fields) : bool :=
+  forallb (fun p => negb (kp (fst p)) ||
+                    match msg_find_field md (fst p) with Some fd => msg_scalar_kind fd | None => false end) fs.
+
+(* no field of any message type refers to the root type (index 0): the root is not recursive *)
+Definition msg_root_unref (S : schema) : Prop :=
+  forall t md fd t', nth_error S t = Some md -> In fd md -> (f_kind fd = KMsg t' \/ f_kind fd = KGrp t') -> t' <> O.
